@@ -44,6 +44,10 @@ def run(rep, tier, seed, replay=None):
     nk = 400 if tier == 'quick' else 4000
     engine_correspondence(rep, binp, seed, nk)
     engine_event_correspondence(rep, binp, seed, 600 if tier == 'quick' else 6000)
+    # ---- the same histories WITHOUT the exact-key hook: event trace + dirty flags vs the engine over the REAL cache (wave 7c)
+    esc7 = bool([c for c in changed if c.startswith('gen_cache:') or 'compute_cached_layout' in c or 'compute_child_layout' in c
+                 or 'compute_hidden_layout' in c or 'mark_dirty' in c])
+    engine_event_correspondence(rep, binp, seed, 3000 if tier != 'quick' or esc7 else 300, real=True)
     # ---- the engine with the REAL cache (wave 6c): memo_real (Model/EngineReal.v) with the block algorithm vs TaffyTree without the
     # exact-key hook, whole trees, layouts + query / hit / measure counts; reports how many trees have no lossy hit (the class on which
     # C01_real_equals_exact_when_no_lossy_hit_partial transfers the exact-key theorems) and how many of those differ from the exact run
